@@ -146,8 +146,9 @@ Definition next_down_asis := next_gen nudge false.
 Definition next_up_pinned := next_gen nudge_pinned true.
 Definition next_down_pinned := next_gen nudge_pinned false.
 
-(** ** simplest_from_f32 / f64 (impl_simplest_from_float!) *)
-Definition simplest_from_ieee_asis (mb eb bits : Z) : result (option frac) :=
+(** ** simplest_from_f32 / f64 (impl_simplest_from_float!): the pinned (pre-repair) body, kept to state
+    the refutation of finding F04: est = Repr::try_from(f) doubled, end points (2n +- 1) / 2d *)
+Definition simplest_from_ieee_pinned (mb eb bits : Z) : result (option frac) :=
   let E := (bits / 2 ^ mb) mod 2 ^ eb in
   let M := bits mod 2 ^ mb in
   let neg := (bits / 2 ^ (mb + eb)) mod 2 =? 1 in
@@ -163,6 +164,38 @@ Definition simplest_from_ieee_asis (mb eb bits : Z) : result (option frac) :=
     let ed := 2 * snd est in
     let lf := freduce (en + 1, ed) in
     let rt := freduce (en - 1, ed) in
+    match simplest_in_asis lf rt with
+    | Ok s =>
+        if Z.even bits then
+          let s1 := if is_simpler_than_asis lf s then lf else s in
+          let s2 := if is_simpler_than_asis rt s1 then rt else s1 in
+          Ok (Some s2)
+        else Ok (Some s)
+    | Panic e => Panic e | Err e => Err e | OutOfFuel => OutOfFuel
+    end.
+
+(** impl_simplest_from_float! after the repair of F04: (man, exp) = f.decode(); the end points are
+    computed in units of ulp/4 = 2^(exp-2): 4*man +- 2 away from zero, 4*man -+ 1 towards zero when f
+    is a power of two above the lowest normal binade (else -+ 2);
+    min_exp = <$t>::MIN_EXP - 1 - (MANTISSA_DIGITS - 1) = 1 - bias - mb *)
+Definition simplest_from_ieee_asis (mb eb bits : Z) : result (option frac) :=
+  let E := (bits / 2 ^ mb) mod 2 ^ eb in
+  let M := bits mod 2 ^ mb in
+  let neg := (bits / 2 ^ (mb + eb)) mod 2 =? 1 in
+  if E =? 2 ^ eb - 1 then Ok None
+  else if (E =? 0) && (M =? 0) then Ok (Some (0, 1))
+  else
+    let man0 := if E =? 0 then M else M + 2 ^ mb in
+    let man := if neg then - man0 else man0 in
+    let ex := (if E =? 0 then 1 else E) - (2 ^ (eb - 1) - 1) - mb in
+    let min_exp := 1 - (2 ^ (eb - 1) - 1) - mb in
+    let tz := if (Z.abs man =? 2 ^ mb) && (min_exp <? ex) then 1 else 2 in
+    let center := 4 * man in
+    let outer := if 0 <? man then center + 2 else center - 2 in
+    let inner := if 0 <? man then center - tz else center + tz in
+    let scale (n : Z) : frac := if 2 <=? ex then (n * 2 ^ (ex - 2), 1) else freduce (n, 2 ^ (2 - ex)) in
+    let lf := scale outer in
+    let rt := scale inner in
     match simplest_in_asis lf rt with
     | Ok s =>
         if Z.even bits then
